@@ -127,14 +127,33 @@ func (c sessCall) req() wproto.Req {
 	if rq.OptSeq == nil {
 		rq.OptSeq = []string{}
 	}
+	// "sp2*400": the document 400 times over (a pair of calls overlaps only if each of them runs long enough)
+	doc, scale := c.Doc, 1
+	if i := strings.Index(doc, "*"); i > 0 {
+		scale, _ = strconv.Atoi(doc[i+1:])
+		doc = doc[:i]
+	}
 	if c.Fam == "root" {
 		rq.Route = "root"
-		rq.Items = sessItems[c.Doc]
+		rq.Items = sessItems[doc]
 		if rq.Items == nil {
 			rq.Items = sessItems["tab"]
 		}
+		if scale > 1 { // one root holding the tree `scale` times under numbered names
+			one := rq.Items
+			rq.Items = []wproto.Item{{D: 1, N: "R"}}
+			for k := 0; k < scale; k++ {
+				for _, it := range one {
+					n := it.N
+					if it.D == 1 {
+						n += strconv.Itoa(k)
+					}
+					rq.Items = append(rq.Items, wproto.Item{D: it.D + 1, N: n})
+				}
+			}
+		}
 	} else {
-		rq.Doc = sessDocs[c.Doc]
+		rq.Doc = strings.Repeat(sessDocs[doc], scale)
 	}
 	switch c.Fault {
 	case "w1":
@@ -306,6 +325,14 @@ func (s *sessionRunner) runSessionMode(calls []sessCall, heldOnly bool) {
 
 // runPair: two calls at the same time in one fresh process; each reply must be the reply of that call alone
 func (s *sessionRunner) runPair(calls []sessCall) {
+	if calls[0].has("dry") && calls[1].has("dry") && calls[0].Op == "output" && calls[1].Op == "output" {
+		// two dry-run reports, each into a writer of its own: the documents 400 times over, so that the two
+		// calls are at work at the same time
+		calls = append([]sessCall{}, calls...)
+		for i := range calls {
+			calls[i].Doc += "*400"
+		}
+	}
 	var want []*sessObs
 	for _, c := range calls {
 		w := s.aloneObs(c)
@@ -324,13 +351,14 @@ func (s *sessionRunner) runPair(calls []sessCall) {
 	for _, c := range calls {
 		rq.Par = append(rq.Par, s.reqOf(c))
 	}
+	bothDry := calls[0].has("dry") && calls[1].has("dry")
 	rp := p.Call(rq, 90*time.Second)
 	s.r.Count("real_calls", len(calls))
 	s.r.Count("concurrent_pairs_replayed", 1)
 	// two calls that both work in the file system overlap only by luck: such pairs run eight times (the process is
 	// the same: what the first round left behind, the later ones meet)
 	fsOp := func(c sessCall) bool { return c.Op == "mkdir" || c.Op == "verify" }
-	for k := 0; k < 7 && fsOp(calls[0]) && fsOp(calls[1]) && rp.Class == "par" && len(rp.Sub) == len(calls); k++ {
+	for k := 0; k < 7 && (fsOp(calls[0]) && fsOp(calls[1]) || bothDry) && rp.Class == "par" && len(rp.Sub) == len(calls); k++ {
 		ok := true
 		for i, c := range calls {
 			if !reflect.DeepEqual(sessObsOf(c, rp.Sub[i]), *want[i]) {
@@ -350,8 +378,8 @@ func (s *sessionRunner) runPair(calls []sessCall) {
 	}
 	for i, c := range calls {
 		got := sessObsOf(c, rp.Sub[i])
-		if c.has("dry") && got.Class == want[i].Class && got.Err == want[i].Err {
-			got.Out = want[i].Out // (the dry-run report goes through the colour package's process-wide settings: not compared here)
+		if c.has("dry") && c.Op == "mkdir" && got.Class == want[i].Class && got.Err == want[i].Err {
+			got.Out = want[i].Out // (Mkdir prints its dry-run report on the colour package's process-wide output, which the two calls share: not compared here)
 		}
 		if reflect.DeepEqual(got, *want[i]) {
 			continue
